@@ -1,13 +1,17 @@
 import RoaringModel.Lemmas.ArrMerge
+import RoaringModel.Lemmas.StoreFacts
 /-!
 # Store-level specifications of the binary operations (store/mod.rs:262-496) and relations
 
 Everything is stated in terms of `Store.elems` under the structural invariant `Store.Inv`.
 
 The bitset-level facts (word-wise `op_bitmaps`, the per-bit array folds, `to_array_store`,
-`to_bitmap_store`) are proved by the core proof library in parallel; until that is merged they are
-bundled, with exactly the agreed statements, in the hypothesis structure `BKernel` — a *named
-hypothesis*, not an axiom: every theorem below that needs a bitset fact takes `(K : BKernel)`.
+`to_bitmap_store`) are bundled in the structure `BKernel`; every lemma of this family that needs a
+bitset fact takes `(K : BKernel)`.  The structure is *inhabited unconditionally* by `bKernel` below
+(every field is the theorem of the same name in `Lemmas/BStoreBasic.lean` / `Lemmas/BStoreRange.lean`),
+so the property theorems (`Props/C02.lean`, `Props/C08.lean`) instantiate `K := bKernel` and carry no
+hypothesis.  Lemmas whose names would coincide with the core library's carry the suffix `K`
+(`inv_elemsK`, `sorted_elemsK`, `elems_ltK`, …).
 -/
 namespace Roaring
 
@@ -43,17 +47,37 @@ structure BKernel : Prop where
   interLenArray_spec : ∀ (b : BStore), b.Inv → ∀ (v : List Nat), (∀ x ∈ v, x < 65536) →
     b.interLenArray v = (v.filter (fun x => b.test x)).length
 
+/-- The kernel facts hold: each field is the core-library theorem of the same name. -/
+theorem bKernel : BKernel where
+  mem_toArray := BStore.mem_toArray
+  sorted_toArray := BStore.sorted_toArray
+  length_toArray := BStore.length_toArray
+  inv_toArray := BStore.inv_toArray
+  contains_eq_test := BStore.contains_eq_test
+  arrToBitmap_spec := BStore.arrToBitmap_spec
+  orB_spec := BStore.orB_spec
+  andB_spec := BStore.andB_spec
+  subB_spec := BStore.subB_spec
+  xorB_spec := BStore.xorB_spec
+  orArr_spec := BStore.orArr_spec
+  subArr_spec := BStore.subArr_spec
+  xorArr_spec := BStore.xorArr_spec
+  isDisjoint_spec := BStore.isDisjoint_spec
+  isSubset_spec := BStore.isSubset_spec
+  interLenBitmap_spec := BStore.interLenBitmap_spec
+  interLenArray_spec := BStore.interLenArray_spec
+
 namespace Store
 
 /-! ### the abstraction `Store.elems` under `Store.Inv` -/
 
-theorem inv_elems (K : BKernel) (s : Store) (hs : s.Inv) : Arr.Inv s.elems := by
+theorem inv_elemsK (K : BKernel) (s : Store) (hs : s.Inv) : Arr.Inv s.elems := by
   cases s with
   | array v => exact hs
   | bitmap b => exact K.inv_toArray b hs
 
-theorem sorted_elems (K : BKernel) (s : Store) (hs : s.Inv) : Sorted s.elems := (inv_elems K s hs).1
-theorem elems_lt (K : BKernel) (s : Store) (hs : s.Inv) : ∀ x ∈ s.elems, x < 65536 := (inv_elems K s hs).2
+theorem sorted_elemsK (K : BKernel) (s : Store) (hs : s.Inv) : Sorted s.elems := (inv_elemsK K s hs).1
+theorem elems_ltK (K : BKernel) (s : Store) (hs : s.Inv) : ∀ x ∈ s.elems, x < 65536 := (inv_elemsK K s hs).2
 
 theorem length_elems (K : BKernel) (s : Store) (hs : s.Inv) : s.elems.length = s.len := by
   cases s with
